@@ -9,9 +9,10 @@ from .common import Ctx
 
 THEOREMS = {
     "C07": ["C07_deadline_armed_at_call", "C07_deadline_wakes_caller", "C07_wake_answers", "C07_send_limit_is_sources", "C07_cap_is_20_seconds",
-            "C07_result_belongs", "C07_result_belongs_nonvacuous"],
+            "C07_result_belongs", "C07_result_belongs_nonvacuous", "C07_foreign_packet_ignored", "C07_own_null_entry_answers"],
     "C08": ["C08_tx_count_le_limit", "C08_limit_formula", "C08_backoff_delay_bound", "C08_retry_ladder", "C08_tx_after_answer_refuted", "C08_caps_as_stated",
-            "C08_queue_ordered", "C08_next_is_least_pending", "C08_priority_then_arrival_witness"],
+            "C08_queue_ordered", "C08_next_is_least_pending", "C08_priority_then_arrival_witness",
+            "C08_one_in_flight", "C08_current_is_holder", "C08_one_in_flight_nonvacuous", "C08_slot_changes_hands"],
     "C09": ["C09_no_crash_refuted", "C09_counters_consistent_partial", "C09_caller_wake_answers"],
 }
 
@@ -100,6 +101,14 @@ def special_scenarios():
                     "events": [(0, ("made",))] + [(G, ("call", i)) for i in range(n)], "plan": [],
                     "default_plan": {"lat": 0, "fail": False, "echo": 2 * G, "rply": 2 * G}})
     # the connection is lost while a command is in flight (waiting for its echo / its reply), the transport reporting its own kind of error
+    # fault-log requests: the echo arrives, then -- before the addressed controller's reply -- a NEIGHBOUR controller's null entry (to its own gateway /
+    # to ours), its real entry with the same index, or the addressed controller's own null entry (which IS the reply for an empty slot)
+    for mode in (False, None):
+        for kind in ("nbr_null_entry", "nbr_null_entry_to_us", "nbr_rply", "null_entry"):
+            sc = one(2, 20_000_000, wfr=True, default={"lat": 0, "fail": False, "echo": G, "rply": 5 * G}, events=[(4 * G, ("rx", kind, 0))])
+            sc["cmds"][0].update({"kind": "rq0418", "idx": 5})
+            sc["mode"] = mode
+            out.append(sc)
     for kind in (None, "transport", "serial", "oserror"):
         out.append(one(3, 20_000_000, events=[(2 * G, ("lost", kind))]))
         out.append(one(3, 20_000_000, wfr=True, default={"lat": 0, "fail": False, "echo": 2 * G, "rply": None}, events=[(5 * G, ("lost", kind))]))
@@ -114,7 +123,7 @@ def check(ctx: Ctx, pid: str) -> None:
         "asyncio.sleep's extra hop, wait_for cancelling the awaited future; threading.Lock, real selector latency and GC timing are not modelled",
         "the transport is an environment: per-write latency / failure / echo / reply; the PortProtocol wrapper (impersonation alert, "
         "QoS override) is applied by the harness when it prepares the model's inputs",
-        "packets are abstracted to (header, source, addressed-to-gateway); the 0418 null-reply special case is not modelled",
+        "packets are abstracted to (header, source, addressed-to-gateway, null-log-entry class)",
     ]
     built = ctx.build(pid, THEOREMS[pid])
     n = 400 if thorough else 90
@@ -164,6 +173,18 @@ def check(ctx: Ctx, pid: str) -> None:
                     first = first or f"scenario {k + j}: the implementation blocked the event loop"
                 elif (m[0], m[1], m[2]) != (i[0], i[1], i[2]) or not m[3]:
                     bad += 1
+                    if pid == "C09":
+                        # the model is the unchanged code WITH its recorded findings (C09_no_crash_refuted): an exception left in the loop at an instant at
+                        # which the model leaves none is not one of them
+                        mine = [e for e in i[0] if e and e[0] == 5]
+                        theirs = [e for e in m[0] if e and e[0] == 5]
+                        extra = [e for e in mine if mine.count(e) > theirs.count(e)]
+                        if extra:
+                            sc = scns[k + j]
+                            ctx.violation("loop-exception-the-model-does-not-have", "an exception was left unhandled in the event loop at an instant at which the model of the "
+                                          "send machinery (which has the recorded findings) leaves none",
+                                          {"events": sc["events"], "cmds": sc["cmds"], "plan": sc["plan"], "default_plan": sc["default_plan"], "lifo": sc["lifo"], "mode": sc["mode"],
+                                           "at": [e[1] for e in extra], "implementation_trace": i[0], "model_trace": m[0]}, "schedule")
                     if not first:
                         s = scns[k + j]
                         diff = next((x for x in range(max(len(m[0]), len(i[0]))) if x >= len(m[0]) or x >= len(i[0]) or m[0][x] != i[0][x]), None)
@@ -297,8 +318,10 @@ def oracle(ctx: Ctx, pid: str, s, tr, st, qs, info) -> None:
                               {**case, "cmd": i}, "schedule")
             if d[0] == 2:
                 cmd = info["cmds"][i]
-                _, hdr = info["results"][i]
+                frame, hdr = info["results"][i]
                 ok = hdr.replace("18:000730", qos.GW) == cmd.tx_header.replace("18:000730", qos.GW) or hdr == cmd.rx_header
+                # the reply to an RQ|0418 for an empty slot is the ADDRESSED controller's null entry, which always carries index 00
+                ok = ok or (cmd.code == "0418" and cmd.rx_header and hdr[:-2] == cmd.rx_header[:-2] and frame.split()[-1] == qos.NULL_ENTRY)
                 if not ok:
                     ctx.violation("result-belongs-to-another-command", "send_cmd returned a packet that is neither its echo nor its reply",
                                   {**case, "cmd": i, "returned_header": hdr}, "schedule")
